@@ -3,7 +3,8 @@
 # if valid, stores it as /verif/seeded/Cxx-k/ (patch.diff, demo, meta.json)
 set -u
 ID=$1; K=$2
-SRC=/tmp/seedout/$ID/$K
+SRC=${SEEDSRC:-/tmp/seedout}/$ID/$K
+OUTK=${OUTK:-$K}
 WT=/tmp/seedval-$ID-$K
 export GOFLAGS=-mod=mod GOPROXY=off GOSUMDB=off GOTOOLCHAIN=local
 [ -f $SRC/patch.diff ] || { echo "$ID/$K: no patch"; exit 1; }
@@ -29,7 +30,7 @@ if ! go test -vet=off -count=1 -timeout 900s ./... >/tmp/seedval-$ID-$K.test.log
 # 4. demo fails with the change
 cp $DEMOFILE $DEMO
 if go test -vet=off -count=1 -timeout 300s -run TestSeedDemo $PKG >/tmp/seedval-$ID-$K.mut.log 2>&1; then echo "$ID/$K: INVALID demo passes with the change"; exit 2; fi
-OUT=/verif/seeded/$ID-$K
+OUT=/verif/seeded/$ID-$OUTK
 mkdir -p $OUT
 cp $SRC/patch.diff $OUT/patch.diff
 cp $DEMOFILE $OUT/$(basename $DEMO)
